@@ -17,11 +17,11 @@
   * the table index is built by prepending, so lou_findTable walks the tables in
     the reverse of the order given to lou_indexTables and keeps the first maximum;
     lou_findTables puts a later-walked table BEFORE earlier ones of equal quotient;
-  * `isLanguageTag(key, keySize)` accepts every non-empty prefix of
-    "language"/"region"/"locale" while `isLanguageTag(key, MAXSTRING)` accepts the
-    full words only: a key such as `l` or `reg` is parsed as a language tag and
-    later read as a C string (type confusion).  Inputs with such a key are outside
-    the model (`confusedKey`; the protocol answers UNSUPPORTED);
+  * `isLanguageTag(key, len)` accepts exactly the words language / region / locale
+    (case-insensitively; `strnlen(key, len)` must equal the length of the word — the fix
+    of finding C18-F3).  The parsers call it with `len = keySize`, the readers with
+    `len = MAXSTRING`; both agree on every key (`LouProofs/C18.lean: langTagParsed_eq_isLangKey`),
+    so a key such as `l`, `reg` or `loc` is an ordinary key everywhere;
   * a `(char)` cast is applied to the wide characters of a line before they are
     classified or copied (so U+0161 counts as 'a'), but `#`, `+`, `-`, `:`, `*`
     are compared on the full wide character;
@@ -72,16 +72,18 @@ def kRegion : Str := [114, 101, 103, 105, 111, 110]                             
 def kLocale : Str := [108, 111, 99, 97, 108, 101]                                     -- "locale"
 def kUnicodeRange : Str := [117, 110, 105, 99, 111, 100, 101, 45, 114, 97, 110, 103, 101]  -- "unicode-range"
 
-/-- metadata.c:241 `isLanguageTag(key, len)` -/
+/-- metadata.c:241 `isLanguageTag(key, len)`: `n = strnlen(key, len)`; the whole key has to be
+    one of the three names (`key` = the bytes up to the NUL, or the `len`-character slice) -/
 def isLanguageTagN (key : Str) (len : Nat) : Bool :=
-  strncaseEq kLanguage key len || strncaseEq kRegion key len || strncaseEq kLocale key len
+  let n := min key.length len
+  (n == kLanguage.length && strncaseEq kLanguage key n) ||
+  (n == kRegion.length && strncaseEq kRegion key n) ||
+  (n == kLocale.length && strncaseEq kLocale key n)
 
-/-- `isLanguageTag(k, keySize)` as the two parsers call it: any non-empty prefix of the three words -/
+/-- `isLanguageTag(k, keySize)` as the two parsers call it -/
 def langTagParsed (key : Str) : Bool := isLanguageTagN key key.length
-/-- `isLanguageTag(k, MAXSTRING)` as cmpFeatures, matchFeatureLists and lou_getTableInfo call it: the full words -/
+/-- `isLanguageTag(k, MAXSTRING)` as cmpFeatures, matchFeatureLists and lou_getTableInfo call it -/
 def isLangKey (key : Str) : Bool := isLanguageTagN key MAXSTRING
-/-- the type confusion: parsed as a subtag list, read back as a `char *` -/
-def confusedKey (key : Str) : Bool := langTagParsed key && !isLangKey key
 
 /-! ## features -/
 
@@ -535,18 +537,6 @@ def getTableInfo (bytes : List Nat) (key : Str) : Option Str × Nat :=
 def listTables (idx : List Table) : List Str :=
   listSort cmpStr (idx.map (·.name))
 
-/-! ## the model's fragment -/
-
-/-- no key of the file / query is a proper prefix of language/region/locale (type confusion) -/
-def featsSupported (fs : List Feat) : Bool := fs.all (fun f => !confusedKey f.key)
-
-/-- the features `analyzeTable` returns contain no confused key (a confused key that was
-    parsed always survives the sort: duplicates are dropped in favour of an equal key) -/
-def fileSupported (bytes : List Nat) (activeOnly : Bool) : Bool :=
-  featsSupported (analyzeTable bytes activeOnly).1
-
-def querySupported (query : Str) : Bool := featsSupported (parseQuery query).1
-
 /-! ## line protocol -/
 
 def cstr (b : List Nat) : Str := b.takeWhile (· != 0)
@@ -566,11 +556,11 @@ def parseFiles : Nat → List String → Option (List (Str × List Nat))
     pure ((name, bytes) :: tl)
   | _, _ => none
 
-/-- index the files carried on the line; `none` = malformed, `some none` = outside the fragment -/
-def protoIndex (n : String) (rest : List String) : Option (Option (List Table × Nat × Nat)) := do
+/-- index the files carried on the line; `none` = malformed -/
+def protoIndex (n : String) (rest : List String) : Option (List Table × Nat × Nat) := do
   let k ← n.toNat?
   let files ← parseFiles k rest
-  if files.all (fun f => fileSupported f.2 true) then pure (some (indexTables files)) else pure none
+  pure (indexTables files)
 
 /-- Operations (all strings are hex byte strings; `<files>` = `<n> <name1> <bytes1> … <namen> <bytesn>`
     in the order given to `lou_indexTables`); the result line is the one the harness prints for
@@ -588,16 +578,13 @@ def handle? (toks : List String) : Option String :=
   | "MINDEX" :: n :: rest =>
     some <| match protoIndex n rest with
     | none => "BADOP"
-    | some none => "UNSUPPORTED"
-    | some (some (_, e, w)) => s!"I {n.toNat?.getD 0}{logSuffix e w}"
+    | some (_, e, w) => s!"I {n.toNat?.getD 0}{logSuffix e w}"
   | "MFIND" :: q :: n :: rest =>
     some <| match parseBytes q, protoIndex n rest with
     | none, _ => "BADOP"
     | _, none => "BADOP"
-    | _, some none => "UNSUPPORTED"
-    | some qb, some (some (idx, _, _)) =>
+    | some qb, some (idx, _, _) =>
       let query := cstr qb
-      if !querySupported query then "UNSUPPORTED" else
       let (qf, e) := parseQuery query
       -- an empty index makes lou_findTable index the (empty) table path: two warnings
       let w := if idx.isEmpty then 2 else 0
@@ -606,10 +593,8 @@ def handle? (toks : List String) : Option String :=
     some <| match parseBytes q, protoIndex n rest with
     | none, _ => "BADOP"
     | _, none => "BADOP"
-    | _, some none => "UNSUPPORTED"
-    | some qb, some (some (idx, _, _)) =>
+    | some qb, some (idx, _, _) =>
       let query := cstr qb
-      if !querySupported query then "UNSUPPORTED" else
       let (qf, e) := parseQuery query
       let w := if idx.isEmpty then 2 else 0
       let r := findTables qf idx
@@ -618,8 +603,7 @@ def handle? (toks : List String) : Option String :=
   | "MLIST" :: n :: rest =>
     some <| match protoIndex n rest with
     | none => "BADOP"
-    | some none => "UNSUPPORTED"
-    | some (some (idx, _, _)) =>
+    | some (idx, _, _) =>
       let w := if idx.isEmpty then 2 else 0
       let r := listTables idx
       let body := if r.isEmpty then " ." else String.join (r.map (fun s => " " ++ showBytes s))
@@ -628,7 +612,6 @@ def handle? (toks : List String) : Option String :=
     some <| match parseBytes k, parseBytes b with
     | some kb, some bytes =>
       let key := cstr kb
-      if !fileSupported bytes false then "UNSUPPORTED" else
       let (r, e) := getTableInfo bytes key
       s!"N {showStrOpt r}{logSuffix e 0}"
     | _, _ => "BADOP"
@@ -636,7 +619,6 @@ def handle? (toks : List String) : Option String :=
     some <| match parseBytes q, parseBytes b with
     | some qb, some bytes =>
       let query := cstr qb
-      if !querySupported query || !fileSupported bytes true then "UNSUPPORTED" else
       let (qf, _) := parseQuery query
       let (feats, _) := analyzeTable bytes true
       if feats.isEmpty then "SC none" else s!"SC {matchFeatureLists qf feats}"
